@@ -44,19 +44,19 @@ theorem processBatch_spec {cfg : Cfg} (P : Params α) {den : Key → α} :
         s'.st.finished.length = s.st.finished.length + rest.length) ∧
       (∀ k, o = some k → P.fails k = true ∧ k ∈ rest.map (·.1) ∧
         ∃ rest', BatchInv cfg den rest' s' ∧ k ∈ rest'.map (·.1)) ∧
-      (∀ k, k ∈ s.st.finished → k ∈ s'.st.finished) := by
+      (∀ k, k ∈ s.st.finished → k ∈ s'.st.finished) ∧ s'.st.dependencies = s.st.dependencies := by
   intro rest
   induction rest with
   | nil =>
     intro s h
-    exact ⟨s, none, rfl, rfl, fun _ => ⟨h, by simp, by simp⟩, (by intro k hk; cases hk), fun k hk => hk⟩
+    exact ⟨s, none, rfl, rfl, fun _ => ⟨h, by simp, by simp⟩, (by intro k hk; cases hk), fun k hk => hk, rfl⟩
   | cons p rest ih =>
     obtain ⟨key, res⟩ := p
     intro s h
     unfold processBatch
     by_cases hf : P.fails key = true
     · simp only [hf, if_true]
-      refine ⟨s, some key, rfl, rfl, (by intro ho; cases ho), ?_, fun k hk => hk⟩
+      refine ⟨s, some key, rfl, rfl, (by intro ho; cases ho), ?_, fun k hk => hk, rfl⟩
       intro k hk
       cases hk
       exact ⟨hf, by simp, (key, res) :: rest, h, by simp⟩
@@ -64,7 +64,7 @@ theorem processBatch_spec {cfg : Cfg} (P : Params α) {den : Key → α} :
       have hkrun : key ∈ s.st.running := (h.running key).mp (Or.inr (by simp))
       have hres : res = den key := h.restVal (key, res) (by simp)
       have hknf : key ∉ s.st.finished := h.inv.runningFinished key hkrun
-      obtain ⟨st', hfin, hinv', hfin', hrun', _, _, hcache, _⟩ := h.inv.complete hkrun res
+      obtain ⟨st', hfin, hinv', hfin', hrun', hdeps', _, hcache, _⟩ := h.inv.complete hkrun res
       rw [hfin]
       simp only []
       have hnd := h.nodup
@@ -74,7 +74,7 @@ theorem processBatch_spec {cfg : Cfg} (P : Params α) {den : Key → α} :
       have hnd2' := List.nodup_cons.mp hnd2
       have hkpend : key ∉ pendKeys s := fun hk => hnd3 key hk key (by simp) rfl
       have hB : BatchInv cfg den rest { s with st := st', log := s.log ++ [(Ev.posttask key, st')] } := by
-        refine ⟨hinv', ?_, ?_, ?_, h.pendVal, ?_, h.pendNonempty, ?_, ?_, ?_, ?_⟩
+        refine ⟨hinv', ?_, ?_, ?_, h.pendVal, ?_, h.pendNonempty, ?_, ?_, ?_, ?_, ?_, ?_⟩
         · intro d v hv
           rcases hcache d v hv with ⟨rfl, rfl⟩ | hold
           · exact hres
@@ -129,8 +129,22 @@ theorem processBatch_spec {cfg : Cfg} (P : Params α) {den : Key → α} :
           have : postKeys [(Ev.posttask key, st')] = [key] := rfl
           rw [this, List.mem_append, List.mem_singleton, h.postIff k]
           exact Or.comm
-      obtain ⟨s', o, hpb, hpend, hnone, hsome, hmono⟩ := ih _ hB
-      refine ⟨s', o, hpb, hpend, ?_, ?_, ?_⟩
+        · intro e he k hk
+          have he' : e ∈ s.log ++ [(Ev.posttask key, st')] := he
+          rcases List.mem_append.mp he' with he1 | he1
+          · exact h.preSnap e he1 k hk
+          · simp only [List.mem_singleton] at he1
+            rw [he1] at hk
+            cases hk
+        · intro e he b hk
+          have he' : e ∈ s.log ++ [(Ev.posttask key, st')] := he
+          rcases List.mem_append.mp he' with he1 | he1
+          · exact h.noFinish e he1 b hk
+          · simp only [List.mem_singleton] at he1
+            rw [he1] at hk
+            cases hk
+      obtain ⟨s', o, hpb, hpend, hnone, hsome, hmono, hdd⟩ := ih _ hB
+      refine ⟨s', o, hpb, hpend, ?_, ?_, ?_, hdd.trans hdeps'⟩
       · intro ho
         obtain ⟨a, b, c⟩ := hnone ho
         refine ⟨a, ?_, ?_⟩
@@ -179,8 +193,8 @@ theorem iter_spec {cfg : Cfg} (P : Params α) {den : Key → α} (hden : IsDen c
     ∃ s' o, iter cfg P choice s = .ok (s', o) ∧
       (o = none → SysInv cfg den s' ∧ s.st.finished.length < s'.st.finished.length) ∧
       (∀ k, o = some k → P.fails k = true ∧ ∃ rest', BatchInv cfg den rest' s' ∧ k ∈ rest'.map (·.1)) ∧
-      (∀ k, k ∈ s.st.finished → k ∈ s'.st.finished) := by
-  obtain ⟨s1, hfire, hinv1, hfin1, hwait1, _, _, _, ⟨bs, hbs⟩, hprog⟩ := fire_spec P hden hnw hcs h
+      (∀ k, k ∈ s.st.finished → k ∈ s'.st.finished) ∧ s'.st.dependencies = s.st.dependencies := by
+  obtain ⟨s1, hfire, hinv1, hfin1, hwait1, _, _, hdep1, _, ⟨bs, hbs⟩, hprog⟩ := fire_spec P hden hnw hcs h
   have hpne : s1.pending ≠ [] := by
     by_cases hp : s.pending = []
     · have hrun0 : s.st.running = [] := by
@@ -222,7 +236,7 @@ theorem iter_spec {cfg : Cfg} (P : Params α) {den : Key → α} (hden : IsDen c
       exact hperm.map _
     have hbmem : batch ∈ s1.pending := List.mem_of_getElem? hb
     have hB : BatchInv cfg den batch { s1 with pending := s1.pending.eraseIdx choice } := by
-      refine ⟨hinv1.inv, hinv1.sound, ?_, ?_, ?_, ?_, ?_, hinv1.preNodup, hinv1.preIff, hinv1.postNodup, hinv1.postIff⟩
+      refine ⟨hinv1.inv, hinv1.sound, ?_, ?_, ?_, ?_, ?_, hinv1.preNodup, hinv1.preIff, hinv1.postNodup, hinv1.postIff, hinv1.preSnap, hinv1.noFinish⟩
       · have := hinv1.nodup
         simp only [List.map_nil, List.append_nil] at this
         exact hpermK.nodup_iff.mp this
@@ -235,8 +249,8 @@ theorem iter_spec {cfg : Cfg} (P : Params α) {den : Key → α} (hden : IsDen c
         exact hinv1.pendVal p (hperm.mem_iff.mpr (List.mem_append_right _ hp))
       · intro b hb'
         exact hinv1.pendNonempty b (mem_eraseIdx_sub _ _ _ hb')
-    obtain ⟨s', o, hpb, _, hnone, hsome, hmono⟩ := processBatch_spec P batch _ hB
-    refine ⟨s', o, hpb, ?_, ?_, ?_⟩
+    obtain ⟨s', o, hpb, _, hnone, hsome, hmono, hdd⟩ := processBatch_spec P batch _ hB
+    refine ⟨s', o, hpb, ?_, ?_, ?_, hdd.trans hdep1⟩
     · intro ho
       obtain ⟨a, _, c⟩ := hnone ho
       refine ⟨a, ?_⟩
@@ -267,7 +281,7 @@ theorem mainLoop_spec {cfg : Cfg} (P : Params α) {den : Key → α} (hden : IsD
       (o = .starved → SysInv cfg den s' ∧ loopCond s'.st = true ∧
         s.st.finished.length + choices.length ≤ s'.st.finished.length) ∧
       (∀ k, o = .failed k → P.fails k = true ∧ ∃ rest', BatchInv cfg den rest' s' ∧ k ∈ rest'.map (·.1)) ∧
-      (∀ k, k ∈ s.st.finished → k ∈ s'.st.finished) := by
+      (∀ k, k ∈ s.st.finished → k ∈ s'.st.finished) ∧ s'.st.dependencies = s.st.dependencies := by
   intro choices
   induction choices with
   | nil =>
@@ -276,16 +290,16 @@ theorem mainLoop_spec {cfg : Cfg} (P : Params α) {den : Key → α} (hden : IsD
     unfold mainLoop
     by_cases hl : loopCond s.st = true
     · simp only [hl, if_true]
-      exact ⟨s, .starved, rfl, (by intro ho; cases ho), fun _ => ⟨h, hl, by simp⟩, (by intro k hk; cases hk), fun k hk => hk⟩
+      exact ⟨s, .starved, rfl, (by intro ho; cases ho), fun _ => ⟨h, hl, by simp⟩, (by intro k hk; cases hk), fun k hk => hk, rfl⟩
     · simp only [hl]
       have hl' : loopCond s.st = false := by simpa using hl
-      exact ⟨s, .done, rfl, fun _ => ⟨h, hl'⟩, (by intro ho; cases ho), (by intro k hk; cases hk), fun k hk => hk⟩
+      exact ⟨s, .done, rfl, fun _ => ⟨h, hl'⟩, (by intro ho; cases ho), (by intro k hk; cases hk), fun k hk => hk, rfl⟩
   | cons c cs ih =>
     intro s h
     unfold mainLoop
     by_cases hl : loopCond s.st = true
     · simp only [hl, if_true]
-      rcases iter_spec P hden hnw hcs rank hrank h hl c with hbad | ⟨s1, o1, hit, hnone, hsome, hmono1⟩
+      rcases iter_spec P hden hnw hcs rank hrank h hl c with hbad | ⟨s1, o1, hit, hnone, hsome, hmono1, hdd1⟩
       · left; rw [hbad]
       · rw [hit]
         cases o1 with
@@ -293,14 +307,14 @@ theorem mainLoop_spec {cfg : Cfg} (P : Params α) {den : Key → α} (hden : IsD
           right
           simp only []
           exact ⟨s1, .failed k, rfl, (by intro ho; cases ho), (by intro ho; cases ho),
-            (by intro k' hk'; cases hk'; exact hsome k rfl), hmono1⟩
+            (by intro k' hk'; cases hk'; exact hsome k rfl), hmono1, hdd1⟩
         | none =>
           simp only []
           obtain ⟨hinv1, hlt⟩ := hnone rfl
-          rcases ih s1 hinv1 with hbad | ⟨s', o, hml, hdone, hstarved, hfailed, hmono⟩
+          rcases ih s1 hinv1 with hbad | ⟨s', o, hml, hdone, hstarved, hfailed, hmono, hdd⟩
           · left; exact hbad
           · right
-            refine ⟨s', o, hml, hdone, ?_, hfailed, fun k hk => hmono k (hmono1 k hk)⟩
+            refine ⟨s', o, hml, hdone, ?_, hfailed, fun k hk => hmono k (hmono1 k hk), hdd.trans hdd1⟩
             intro ho
             obtain ⟨a, b, c⟩ := hstarved ho
             refine ⟨a, b, ?_⟩
@@ -309,6 +323,6 @@ theorem mainLoop_spec {cfg : Cfg} (P : Params α) {den : Key → α} (hden : IsD
     · right
       simp only [hl]
       have hl' : loopCond s.st = false := by simpa using hl
-      exact ⟨s, .done, rfl, fun _ => ⟨h, hl'⟩, (by intro ho; cases ho), (by intro k hk; cases hk), fun k hk => hk⟩
+      exact ⟨s, .done, rfl, fun _ => ⟨h, hl'⟩, (by intro ho; cases ho), (by intro k hk; cases hk), fun k hk => hk, rfl⟩
 
 end Dask.Sched
